@@ -36,6 +36,10 @@ struct Node {
     origin: Origin,
 }
 
+// The frontier is split into disjoint chunks and every node is read by exactly one worker, so the harness does
+// not depend on `Game` being `Sync` (an implementation may keep interior-mutable caches in it).
+unsafe impl Sync for Node {}
+
 /// Level-synchronous BFS from one seed to `depth` plies; identity = placement, side, rights and the
 /// engine's en-passant target. Returns (states, transitions).
 pub fn bfs(ctx: &Ctx, name: &str, seed: &Pos, depth: usize, total: &Mutex<Counts>) -> (u64, u64) {
